@@ -50,8 +50,10 @@ theorem wallet_panic_iff (fl : CodecFlags) (hf : fl.walletTotal = false) (bs : B
 /-! ### handshake, services, the whole message layer -/
 theorem handshake_response_total (bs : Bytes) : HsResponse.decode bs ≠ .panic := HsResponse.decode_ne_panic bs
 theorem services_total (bs : Bytes) : decServices bs ≠ .panic := decServices_ne_panic bs
-/-- all 15 tags and every unknown tag: total once the two peer-facing decoders check bounds -/
-theorem message_total_fixed (fl : CodecFlags) (h1 : fl.txBounds = true) (h2 : fl.ghostBounds = true) (bs : Bytes) :
+/-- all 15 tags and every unknown tag: total once the transaction decoder checks bounds and the chain-sync payload
+    is checked, either inside its decoder or by `Message::deserialize` before the decoder is called -/
+theorem message_total_fixed (fl : CodecFlags) (h1 : fl.txBounds = true)
+    (h2 : fl.ghostBounds = true ∨ fl.msgGhostChecked = true) (bs : Bytes) :
     Msg.decode fl bs ≠ .panic := Msg.decode_ne_panic_fixed fl h1 h2 bs
 /-- on every tree a message can only panic through tag 4 or tag 10 (so a panic under any other tag is a
     disagreement with the model, never a listed finding) -/
